@@ -13,6 +13,19 @@ COMMON_NOTE = ("Trusted: Lean 4.33.0 kernel; axioms per theorem as printed by #p
 
 # property id -> dict(level, text, technique, note, design_ref)
 CLAIMED = {
+    "C10": dict(
+        level="proof",
+        text="Lean theorems over the C09 model of boa_gc's collector, as corollaries of its safety/completeness: gc_unobservable (from any handle "
+             "the script holds, every chain of field reads yields the same object identities after a collection as before: same fields, same "
+             "liveness, at every depth), cleared_only_if_unreachable (an object freed by a collection was unreachable from every handle: a WeakRef "
+             "can only lose an unreachable target), freed_once (finalizer/drop counters of a freed object never move again), "
+             "drop_all_reclaims (with no handle left one collection frees every object, cycles included). The model's tie to boa_gc is C09's "
+             "correspondence. The property's own differential runs on the engine: every program without and with a collection before every "
+             "allocation (hook) must print the same trace; WeakRef/FinalizationRegistry programs; collector box counts return to their "
+             "baseline after the context is dropped.",
+        technique="Lean 4 corollaries of the collector model's safety/completeness theorems + engine differential under collect-before-every-allocation (hook) + leak accounting after context drop",
+        note="Ephemeron-free fragment (as C09); the engine's tracing code (derive(Trace)) is exercised, not modelled. Needs boa_gc::verif hooks.",
+    ),
     "C19": dict(
         level="proof",
         text="PARTIAL. Lean theorems cover the data-carrying part of the printer/parser pair: lex_unit / string_print_lex (for EVERY string value - "
@@ -199,7 +212,7 @@ CLAIMED = {
 
 ALL = ["C%02d" % i for i in range(1, 21)]
 NOT_YET = "not claimed yet: model, correspondence and first theorem for this property are not built (see DESIGN.md §7 build order)"
-HOOK_COMMITS = ["ee8c1f4", "5c06b44", "e155a04", "1e55d63", "9e69b21", "f5f85fd", "f641ffa", "a4032f3"]
+HOOK_COMMITS = ["ee8c1f4", "5c06b44", "e155a04", "1e55d63", "9e69b21", "f5f85fd", "f641ffa", "a4032f3", "c4c62fc"]
 
 
 def manifest():
